@@ -102,7 +102,7 @@ impl RingBuffer {
         let amount = usize::min(amount, self.len());
         // SAFETY: we maintain invariant 2 here since this will always lead to a smaller buffer
         // for amount≤len
-        self.head = (self.head + amount + 1) % self.cap;
+        self.head = (self.head + amount) % self.cap;
             proof {
             let o = *old(self);
             let n = amount as int;
